@@ -29,11 +29,14 @@ FilterErr(k, fi) == LET f == Filters[fi] IN
 Entry == [file : 1..3, filt : 1..Len(Filters)]
 VARIABLES sd, done
 \* the configuration is a function of a seed: choice point p of configuration sd takes the value H(sd, p)
-H(seed, p) == LET h0 == ((seed % 65521) * 32003 + 12345) % 65521
+H(seed, p) == LET M  == 46337                                  \* prime; every intermediate stays below 2^31 (TLC integers are 32-bit)
+                  h0 == ((seed % M) * 31337 + 12345) % M
                   h1 == (h0 * 75 + 74) % 65537
-                  h2 == (h1 + (p % 100003) * 131) % 65537
-                  h3 == (h2 * 75 + 74) % 65537
-              IN  (h3 * 75 + 74) % 65537
+                  pl == p % 997   ph == p \div 997
+                  h2 == (h1 * (pl + 3) + ph * 7919 + 1) % M
+                  h3 == (h2 * 31337 + ph * 613 + pl) % M
+                  h4 == (h3 * h3 + h2) % M                      \* the square makes the value non-linear in p: neighbouring choice points (children p*8+i) are independent
+              IN  (h4 * 75 + h1) % M
 S == sd + Seed * 7919
 Pick(p, n) == (H(S, p) % n) + 1
 \* references: mostly to an earlier-numbered tag or none (acyclic by construction), sometimes arbitrary (cycles, self reference), rarely dangling
